@@ -21,12 +21,10 @@ import (
 
 // enableMixedFormsInGroup adds texts whose faces use DIFFERENT corner forms inside one
 // group (legal OBJ: the format only demands consistency inside one face statement).
-// The current reader de-duplicates corners per group into parallel arrays and so
-// produces an ill-formed mesh for such a group (positions of all corners, normals/uvs
-// only of some), and saving it rewrites the faces (see the report of this monitor: a
-// face written as "f 1 2 3" comes back as "f 1/1/1 2/2/2 3/3/3"). DESIGN.md scopes the
-// workload to one form per group; the knob is off so that the registered check is
-// silent on the current tree. Switch it on after the reader is repaired.
+// Before fix 95dd987 the reader appended a normal / uv only for corners that carried
+// one and so produced an ill-formed mesh for such a group; saving it rewrote faces with
+// out-of-range vt / vn indices. The repaired reader gives corners without a normal / uv
+// a zero entry; the load-save oracle matches such corners tolerantly (match.go).
 const enableMixedFormsInGroup = true
 
 type textDesc struct {
